@@ -168,8 +168,8 @@ def check_proofs(prop):
     names, src = theorems_of(prop)
     res['obligations'] = len(names)
     res['theorems'] = names
-    res['cmd'] = 'cd /verif/coq && coq_makefile -f _CoqProject -o Makefile && make Props/%s.vo && ' \
-                 'coqc -R . Xeh <Print Assumptions of each theorem>' % prop
+    res['cmd'] = 'cd /verif/coq && coq_makefile -f _CoqProject -o Makefile && make %s && ' \
+                 'coqc -R . Xeh <Print Assumptions of each theorem>' % ' '.join('Props/%s.vo' % m for m in prop_files(prop))
     bad = scan_forbidden()
     if bad:
         res['failures'].append('forbidden vernacular: ' + '; '.join(bad[:10]))
